@@ -126,6 +126,12 @@ namespace sim
          }
          s += "\r\n";
       }
+      else if( prog == 6 ) {
+         static const char* ts[] = { "(ab)", "[cd]", "{ef}", "{ef.g}", "<gh>", "!ij", "!kl?", " ", "(a", "[x", "{y", "<z", "()", "[]", "(ab]", "!", "{q.}" };
+         for( unsigned i = r.range( 1, 6 ); i > 0; --i ) {
+            s += ts[ r.below( sizeof( ts ) / sizeof( ts[ 0 ] ) ) ];
+         }
+      }
       // mutations
       if( r.chance( 2, 5 ) ) {
          unsigned muts = r.range( 1, 2 );
